@@ -69,8 +69,18 @@ def build(targets=None, timeout=1500):
             if rc != 0:
                 return False, out
         tgt = " ".join(targets) if targets else ""
-        rc, out = sh(f"timeout {timeout} make -j{NCPU} {tgt}", cwd=COQ, timeout=timeout + 30)
+        rc, out = sh(f"timeout {timeout} make -k -j{NCPU} {tgt}", cwd=COQ, timeout=timeout + 30)
         return rc == 0, out
+
+
+def vo_targets(texts):
+    """the .vo files of the project modules named in `From EG Require Import ...` sentences of the given texts"""
+    files = {Path(n).stem: n for n in _coqproject_files()}
+    mods = []
+    for t in texts:
+        for m in re.finditer(r"From\s+EG\s+Require\s+(?:Import|Export)\s+([^.]*)\.", t):
+            mods += m.group(1).split()
+    return sorted({files[m] + "o" for m in mods if m in files})
 
 
 def audit_sources():
